@@ -64,6 +64,7 @@ theorem raiseStep_inv {s s' : St} {t : Tid} {e : Err} (hI : Inv s) (h : raiseSte
           | boom => simp only at h; cases h; exact hexit
           | assertion => simp only at h; cases h; exact hexit
           | oserror => simp only at h; cases h; exact hexit
+          | unsupported => simp only at h; cases h; exact hexit
       · simp [hcr] at h
 
 /-- the only obligation on a schedule: the callers that appear run well-formed programs -/
